@@ -124,6 +124,11 @@ def _binary_programs():
     # and the nested group
     out.append(("nested_fused_deps", lambda t: (lambda x, y: y + _opt((x - y) + 1))(t["L"].a.cumsum(), t["L"].b.cumsum()), False, "fusion"))
     out.append(("nested_fused_deps3", lambda t: (lambda x, y, z: (z * y) + _opt((x - z) + _opt(y - x)))(t["L"].a.cumsum(), t["L"].b.cumsum(), t["L"].a.cummax()), False, "fusion"))
+    # a non-partitionwise stage between two partitionwise chains, the stage having a second consumer that is the
+    # LATER operand of a common ancestor (the upper group is fused in an earlier pass than the lower one)
+    out.append(("upper_first_shared_stage", lambda t: (lambda st: ((st + 1) * 2).sum() + st.sum())((t["L"][["a", "b"]] + 0).cumsum()), False, "fusion"))
+    out.append(("upper_first_shared_stage_rep", lambda t: (lambda st: ((st + 1) * 2).sum() + st.sum())(_rep(t["L"][["a", "b"]] * 1, 2)), False, "fusion"))
+    out.append(("stage_first_shared_stage", lambda t: (lambda st: st.sum() + ((st + 1) * 2).sum())((t["L"][["a", "b"]] + 0).cumsum()), False, "fusion"))
     out.append(("nested_fused3", lambda t: _opt(_opt(t["L"].a + 1) * t["L"].b) - t["L"].a, False, "fusion"))
     # two repartitions of one frame in one graph (upwards: split keys; downwards)
     out.append(("two_reparts_up", lambda t: _concat([_rep(t["L"], 5), _rep(t["L"], 7)]), False, "repartition"))
